@@ -24,7 +24,7 @@ def generate(seed, tier):
                         positive=True if names else None)
     faulty = rng.random() < 0.4
     sparse = rng.random() < 0.3
-    ops = gen_dispatch_ops(rng, n_ops(spec), p_fork=0.03 if rng.random() < 0.3 else 0.0, p_query=0.0 if sparse else 0.1, p_invalid=0.08 if faulty else 0.0,
+    ops = gen_dispatch_ops(rng, n_ops(spec), p_fork=0.03 if rng.random() < 0.3 else 0.0, p_solve_rest=0.03 if rng.random() < 0.4 else 0.0, p_query=0.0 if sparse else 0.1, p_invalid=0.08 if faulty else 0.0,
                            p_reset=0.04 if faulty else 0.0, episodes=rng.randint(2, 3) if (sparse or rng.random() < 0.1) else 1,
                            stop_early=0.0 if sparse else 0.1)
     # "sparse": the user looks at the clock only now and then (a seeded subset of the steps, and whenever the
